@@ -155,6 +155,11 @@ package linux
 //vc:  assert[C05] at "Unknown command" @commentLinesAccepted len(line) > 0 && line[0] != 35
 // a table or chain header that appears a second time (hand-written raw file)
 // must not silently replace the rules collected under the first one
+// C20 termination kernel: the option loop consumes at least the key, the
+// argument loop one word per iteration
+//vc:  decreases[C20] 2 "for len(words) > 0 {" len(words)
+//vc:  invariant[C20] 3 "for len(words) > 0 && words[0][0] != '-'" @argumentsOnlyConsumed len(words) <= loopold(len(words))
+//vc:  decreases[C20] 3 "for len(words) > 0 && words[0][0] != '-'" len(words)
 //vc:  assert[C18] at "tb[name] = cMap" @tableDefinedOnce !(name in tb) || tb[name] == nil
 //vc:  assert[C18] at "cMap[name] = &chain{policy: policy}" @chainDefinedOnce !(name in cMap) || cMap[name] == nil
 
